@@ -1772,6 +1772,75 @@ def r12_11(rep):
     c14.r14_4(rep)
 
 
+def _abi_value_filtered(prog, b, node, depth=0):
+    """is the ClangAbi-typed local `node` known not to be `ClangAbi::Unknown` where it is used: it is bound by an arm that follows an
+    arm for `Unknown`, or by a `let` whose initialiser is such a match, or it is a parameter every caller fills with such a value"""
+    from hir import pat_variants as _pv
+    UNK = "ir::function::ClangAbi::Unknown"
+
+    def names_unknown(pat):
+        if UNK in _pv(pat):
+            return True
+        return any(names_unknown(q) for q in pat.get("ps", [])) or ("p" in pat and isinstance(pat["p"], dict) and names_unknown(pat["p"])) or \
+            any(names_unknown(f["p"]) for f in pat.get("fs", []))
+
+    def match_filters(m, upto=None):
+        arms = m["arms"] if upto is None else m["arms"][:upto]
+        return any(names_unknown(a["pat"]) and a.get("guard") is None for a in arms)
+    d = b.local_def.get(node["id"])
+    if not d:
+        return False
+    kind = d[0][0]
+    if kind == "arm":
+        m = d[0][1]
+        idx = next((i for i, a in enumerate(m["arms"]) if any(x.get("id") == node["id"] for x in _pat_binds(a["pat"]))), None)
+        return idx is not None and match_filters(m, idx)
+    if kind in ("let", "letcond"):
+        init = strip(d[0][1].get("init") or {})
+        if init.get("k") == "Match":
+            return any(names_unknown(a["pat"]) and a.get("guard") is None and any(x["k"] == "Ret" for x in b.walk(a["body"])) for a in init["arms"])
+        return False
+    if kind == "param" and depth < 2:
+        idx = next((i for i, p_ in enumerate(b.params) if p_.get("id") == node["id"]), None)
+        callers = []
+        for p2, b2 in prog.bodies.items():
+            for c in b2.calls(lambda x: (x.get("callee") or x.get("resolved") or "") == b.path):
+                callers.append((b2, c))
+        if idx is None or not callers:
+            return False
+        for b2, c in callers:
+            args = c["args"] if c["k"] == "Call" else [c["recv"]] + c["args"]
+            a = strip(args[idx]) if idx < len(args) else {}
+            if a.get("k") != "Local" or not _abi_value_filtered(prog, b2, a, depth + 1):
+                return False
+        return True
+    return False
+
+
+def _pat_binds(pat):
+    out = []
+    if pat.get("k") == "Bind":
+        out.append(pat)
+    for q in pat.get("ps", []):
+        out += _pat_binds(q)
+    if isinstance(pat.get("p"), dict):
+        out += _pat_binds(pat["p"])
+    for f in pat.get("fs", []):
+        out += _pat_binds(f["p"])
+    return out
+
+
+def _abi_interpolations(prog):
+    import qq
+    out = []
+    for p, b in sorted(prog.bodies.items()):
+        for q in qq.quote_sites(b):
+            for nm, node in q.interps().items():
+                if (b.ty(node) or "").endswith("ir::function::ClangAbi"):
+                    out.append((p, b, q, nm, _abi_value_filtered(prog, b, node)))
+    return out
+
+
 @RULES.rule("R12.12", "a calling convention Rust cannot name is reported or skipped, never a panic", floor=2)
 def r12_12(rep):
     """clang accepts `__attribute__((regcall))`, `preserve_most`, … ; bindgen records them as `ClangAbi::Unknown(n)`.  Every place
@@ -1799,6 +1868,18 @@ def r12_12(rep):
                                                                             (x.get("callee") or "").startswith("core::panicking") or
                                                                             (x.get("callee") or "").startswith("std::rt::begin_panic"))]
                 fn = "::".join(p.split("::")[-2:]) if not p.startswith("<") else re.sub(r"<(.*?) as (.*?)>::(\w+)", lambda mm: "%s for %s::%s" % (mm.group(2).split("::")[-1], mm.group(1).split("::")[-1], mm.group(3)), p)
+                if panics and (b.fact.get("impl_trait") or "").endswith("ToTokens"):
+                    # the printer may refuse `Unknown` if no such value ever reaches it: every quote that interpolates a ClangAbi
+                    # takes it from behind an arm that took `Unknown` away
+                    sites = _abi_interpolations(prog)
+                    unf = [(pp, q) for pp, bb, q, nm, ok in sites if not ok]
+                    rep.check(bool(sites) and not unf, "unknown-abi-panics@%s" % fn,
+                              "the printer refuses `Unknown`, and each of the %d quotes that print a ClangAbi sits behind a filter for it" % len(sites)
+                              if sites and not unf else
+                              "the `ClangAbi::Unknown` arm of %s panics and `%s` interpolates a ClangAbi that may still be `Unknown` "
+                              "(e.g. a `regcall` function-pointer type)" % (fn, unf[0][0].split("::")[-1] if unf else "?"),
+                              unf[0][1].loc() if unf else b.loc(body))
+                    continue
                 rep.check(not panics, "unknown-abi-panics@%s" % fn, "the `ClangAbi::Unknown` arm of %s %s" % (fn, "panics" if panics else "does not panic"), b.loc(body))
     rep.check(n >= 2, "unknown-abi-arms", "%d arms handling ClangAbi::Unknown" % n)
 
